@@ -1,0 +1,56 @@
+//! Verification hooks (only with `--cfg bp7_verif`): clock override and scheduler yield points.
+use std::cell::{Cell, RefCell};
+use std::sync::atomic::{AtomicU64, AtomicUsize as RealAtomicUsize, Ordering};
+
+static CLOCK_MS: AtomicU64 = AtomicU64::new(u64::MAX);
+thread_local! {
+    static THREAD_CLOCK_MS: Cell<Option<u64>> = const { Cell::new(None) };
+    static YIELD_HOOK: RefCell<Option<Box<dyn FnMut(&'static str)>>> = const { RefCell::new(None) };
+}
+/// Process-wide clock override (milliseconds since the Unix epoch); `None` restores the real clock.
+pub fn set_clock_ms(v: Option<u64>) {
+    CLOCK_MS.store(v.unwrap_or(u64::MAX), Ordering::SeqCst);
+}
+/// Per-thread clock override, takes precedence over the process-wide one.
+pub fn set_thread_clock_ms(v: Option<u64>) {
+    THREAD_CLOCK_MS.with(|c| c.set(v));
+}
+pub fn clock_ms() -> Option<u64> {
+    if let Some(v) = THREAD_CLOCK_MS.with(|c| c.get()) {
+        return Some(v);
+    }
+    match CLOCK_MS.load(Ordering::SeqCst) {
+        u64::MAX => std::env::var("BP7_VERIF_CLOCK_MS").ok().and_then(|s| s.parse().ok()),
+        v => Some(v),
+    }
+}
+/// Install (or remove) the calling thread's scheduler callback.
+pub fn set_yield_hook(f: Option<Box<dyn FnMut(&'static str)>>) {
+    YIELD_HOOK.with(|h| *h.borrow_mut() = f);
+}
+pub fn yield_point(op: &'static str) {
+    YIELD_HOOK.with(|h| {
+        if let Some(f) = h.borrow_mut().as_mut() {
+            f(op)
+        }
+    });
+}
+/// Drop-in for `core::sync::atomic::AtomicUsize` that yields to the scheduler before every operation.
+pub struct AtomicUsize(RealAtomicUsize);
+impl AtomicUsize {
+    pub const fn new(v: usize) -> Self {
+        AtomicUsize(RealAtomicUsize::new(v))
+    }
+    pub fn swap(&self, v: usize, o: Ordering) -> usize {
+        yield_point("swap");
+        self.0.swap(v, o)
+    }
+    pub fn store(&self, v: usize, o: Ordering) {
+        yield_point("store");
+        self.0.store(v, o)
+    }
+    pub fn fetch_add(&self, v: usize, o: Ordering) -> usize {
+        yield_point("fetch_add");
+        self.0.fetch_add(v, o)
+    }
+}
